@@ -37,8 +37,9 @@ pub fn c02(out: &mut Vec<String>, rng: &mut Rng, tier: &str) {
     }
     // sampled beyond the bound, up to 10^9, including the edges of both domains
     let reps = if tier == "thorough" { 20000 } else { 2000 };
-    for _ in 0..reps {
-        let e = rng.range(2, 30);
+    for i in 0..reps {
+        // populations up to 2^62 (beyond the range where n and k are exact in f64)
+        let e = if i % 4 == 0 { rng.range(31, 62) } else { rng.range(2, 30) };
         let n = rng.range(1, 1i64 << e) as usize;
         let k = match rng.below(8) {
             0 => rng.below(12) as usize,
@@ -126,6 +127,25 @@ pub fn c17(out: &mut Vec<String>, rng: &mut Rng, tier: &str) {
             let kind = rng.below(3);
             let (c1, c2) = (conf_of(kind, l1), conf_of(kind, l2));
             out.push(format!("C17 rel p wider {} {} {} {} {} {} => {} | {}", enc_conf(&c1), n, k, enc_conf(&c2), n, k, w(c1, n, k), w(c2, n, k)));
+        }
+    }
+    // small numbers of successes / failures in large populations (where approximations are tempting),
+    // including very high levels
+    for n in [1_000usize, 9_999, 10_000, 99_999, 100_000, 100_001, 1_000_000, 50_000_000] {
+        for (ci, c) in [conf_of(0, 0.9), conf_of(0, 0.999), conf_of(1, 0.99), conf_of(2, 0.95)].iter().enumerate() {
+            let ec = enc_conf(c);
+            for k in 2..(if tier == "thorough" { 60 } else { 24 }) {
+                for (kk, k2) in [(k, k + 1), (n - k - 1, n - k)] {
+                    if kk < 2 || k2 > n - 2 {
+                        continue;
+                    }
+                    out.push(format!("C17 rel p mono {} {} {} {} {} {} => {} | {}", ec, n, kk, ec, n, k2, w(*c, n, kk), w(*c, n, k2)));
+                }
+                if (k + ci) % 4 == 0 {
+                    let f = c.flipped();
+                    out.push(format!("C17 rel p mirror {} {} {} {} {} {} => {} | {}", ec, n, k, enc_conf(&f), n, n - k, w(*c, n, k), w(f, n, n - k)));
+                }
+            }
         }
     }
     // larger populations
@@ -246,6 +266,25 @@ pub fn c03(out: &mut Vec<String>, rng: &mut Rng, tier: &str) {
             out.push(qidx_line(conf_of(n as u64, 0.9), n, q));
         }
     }
+    // Stats::index: the rank of a proportion, min(floor(p n), n - 1)
+    for n in [0usize, 1, 2, 7, 10, 15, 100, 1000, 1_000_000] {
+        let mut ps: Vec<f64> = vec![0.0, -0.0, 1.0, 0.5, 1.0 / 3.0, 0.999999999, next_down(1.0), next_up(1.0), -1e-9, 2.0, f64::NAN];
+        for j in 0..=n.min(20) {
+            let p = j as f64 / n.max(1) as f64;
+            ps.push(p);
+            if p > 0.0 && p < 1.0 {
+                ps.push(next_up(p));
+                ps.push(next_down(p));
+            }
+        }
+        for p in ps {
+            let r = guarded(|| match quantile::Stats::new(n).index(p) {
+                Ok(i) => format!("ok {}", i),
+                Err(e) => enc_cierr(&e),
+            });
+            out.push(format!("C03 index n {} {} => {}", n, p.enc(), r));
+        }
+    }
     let reps = if tier == "thorough" { 3000 } else { 300 };
     for _ in 0..reps {
         let n = rng.range(4, 2_000_000) as usize;
@@ -315,7 +354,7 @@ pub fn c12(out: &mut Vec<String>, _rng: &mut Rng, tier: &str) {
     let ns: Vec<usize> = if tier == "thorough" {
         vec![20, 25, 30, 40, 50, 60, 80, 100, 120, 150, 200, 250, 300, 400, 500, 600, 800, 1000, 1500, 2000, 3000]
     } else {
-        vec![20, 37, 60, 100, 250, 600]
+        vec![20, 37, 60, 100, 250, 600, 1500]
     };
     let levels = [0.8, 0.9, 0.95, 0.99];
     for n in &ns {
@@ -335,7 +374,7 @@ pub fn c12(out: &mut Vec<String>, _rng: &mut Rng, tier: &str) {
         }
     }
     // quantile intervals: ranks for a grid of q
-    let nq: Vec<usize> = if tier == "thorough" { vec![20, 30, 50, 100, 200, 400, 1000, 3000] } else { vec![20, 50, 100, 400] };
+    let nq: Vec<usize> = if tier == "thorough" { vec![20, 30, 50, 100, 200, 400, 1000, 3000] } else { vec![20, 50, 100, 400, 1200] };
     for n in &nq {
         for l in levels {
             for kind in 0..3 {
